@@ -174,6 +174,8 @@ var routeCorpus = [][]routeSpec{
 	{{"GET", "/r/{name=**}"}, {"PUT", "/r/x/y"}},
 	{{"POST", "/x:v"}, {"GET", "/x"}, {"PATCH", "/{name}:v"}},
 	{{"GET", "/a%2Db/c"}, {"GET", "/{name}/c"}},
+	// a literal that is one character a client may send raw or percent-encoded ('@'), next to a wildcard
+	{{"GET", "/%40"}, {"GET", "/{name}"}, {"GET", "/%40/k"}},
 }
 
 // literal segments worth trying per table (its own literals, with and without verbs)
@@ -184,6 +186,7 @@ var routeLiterals = [][]string{
 	{"r", "x", "y"},
 	{"x", "x:v", "q:v"},
 	{"a-b", "c"},
+	{"@", "%40", "k"},
 }
 
 func buildTrie(specs []routeSpec, order int) (*routeTrie, []refBinding, bool) {
